@@ -566,6 +566,16 @@ int main(int argc, char **argv) {
         while (!vfork_tid) usleep(100);
         reply("ok %d %p", vfork_tid, (void *)&vfork_done);
       }
+    } else if (!strcmp(cmd, "morehandlers")) {
+      // logging handlers for ten standard signals numbered below SIGSTOP (delivered before a pending stop)
+      struct sigaction sa2;
+      memset(&sa2, 0, sizeof sa2);
+      sa2.sa_handler = handler;
+      sa2.sa_flags = SA_ONSTACK | SA_RESTART;
+      sigemptyset(&sa2.sa_mask);
+      int more[] = {SIGHUP, SIGINT, SIGQUIT, SIGABRT, SIGUSR1, SIGUSR2, SIGPIPE, SIGALRM, SIGTERM, SIGSTKFLT};
+      for (unsigned i = 0; i < sizeof more / sizeof more[0]; i++) sigaction(more[i], &sa2, NULL);
+      reply("ok");
     } else if (!strcmp(cmd, "newpgrp")) {
       // own process group (not orphaned: the parent sits in another group of the same session), so that
       // job-control stop signals (SIGTSTP ...) are not ignored
